@@ -286,6 +286,8 @@ pub fn integ_decl() -> impl Strategy<Value = IntegDecl> {
         1 => Just(IntegDecl::MultiAllWrong),
         1 => Just(IntegDecl::MultiTwoAlgos),
         2 => Just(IntegDecl::DigestOfOtherBlob),
+        1 => Just(IntegDecl::WrongTail),
+        1 => Just(IntegDecl::CaseToggled),
     ]
 }
 
@@ -307,6 +309,7 @@ pub fn declare(allow_wrong: bool) -> BoxedStrategy<Declare> {
             1 => (1i64..5).prop_map(Declare::Off),
             1 => (1i64..5).prop_map(|d| Declare::Off(-d)),
             1 => Just(Declare::Off(1 << 20)),
+            1 => prop_oneof![Just(Declare::Off(1 << 32)), Just(Declare::Off(1 << 31)), Just(Declare::Off(1 << 33)), Just(Declare::Off(3 << 32)), Just(Declare::Off(1 << 16)), Just(Declare::Off(256)), Just(Declare::Off(-256)), Just(Declare::Off(-(1 << 16))), Just(Declare::Off(1 << 48))],
         ]
         .boxed()
     } else {
@@ -347,9 +350,11 @@ pub fn write_spec(mix: WriteMix, nkeys: usize, nblobs: usize) -> impl Strategy<V
         (proptest::option::weighted(0.3, time_text()), proptest::option::weighted(0.3, json_value()), proptest::option::weighted(0.25, raw_meta()), any::<bool>()),
         (prop_oneof![3 => Just(0u8), 1 => 3u8..6], prop_oneof![12 => Just(Interfere::None), 1 => Just(Interfere::Clear), 1 => Just(Interfere::RemoveTmp), 1 => Just(Interfere::RemoveContentArea)],
          prop_oneof![8 => Just(0u16), 2 => 1u16..4, 1 => Just(1025u16), 1 => Just(1500u16)],
-         proptest::option::weighted(0.15, 0u8..8)),
+         proptest::option::weighted(0.15, 0u8..8),
+         prop_oneof![18 => Just(0u32), 1 => Just(2u32), 1 => Just(25u32), 1 => Just(24 * 40)],
+         prop::bool::weighted(0.12)),
     )
-        .prop_map(move |((ks, bs, hash, algo, entry), (chunks, declare, integ), (time, metadata, raw, flush), (pause, interfere, vectored, cancel_chunk))| {
+        .prop_map(move |((ks, bs, hash, algo, entry), (chunks, declare, integ), (time, metadata, raw, flush), (pause, interfere, vectored, cancel_chunk, aged_hours, decoy_opts))| {
             let by_hash = mix.by_hash && hash && (ks & 3) == 0;
             let mut s = WriteSpec {
                 key: if by_hash { None } else { Some(pick(ks, nkeys)) },
@@ -367,6 +372,8 @@ pub fn write_spec(mix: WriteMix, nkeys: usize, nblobs: usize) -> impl Strategy<V
                 interfere: if mix.interfere { interfere } else { Interfere::None },
                 vectored,
                 cancel_chunk,
+                aged_hours,
+                decoy_opts,
             };
             normalise_write(&mut s);
             s
@@ -396,6 +403,10 @@ pub fn normalise_write(s: &mut WriteSpec) {
         s.interfere = Interfere::None;
         s.vectored = 0;
         s.cancel_chunk = None;
+        s.aged_hours = 0;
+    }
+    if s.entry != WEntry::Opts {
+        s.decoy_opts = false;
     }
 }
 
@@ -464,6 +475,7 @@ pub fn bdamage() -> impl Strategy<Value = BDamage> {
         1 => garbage_line().prop_map(BDamage::AppendRaw),
         2 => any::<u16>().prop_map(|o| BDamage::AppendLineFrom(o as usize)),
         2 => (0usize..6).prop_map(BDamage::CrBeforeLf),
+        1 => (prop_oneof![Just(70_000usize), Just(300_000usize), Just(1_100_000usize)], prop_oneof![Just(100usize), Just(5000usize), Just(2_000_000usize)], any::<u16>()).prop_map(|(total, line, salt)| BDamage::GarbageTail { total, line, salt: salt as u64 }),
     ]
 }
 
